@@ -21,6 +21,21 @@ class ModuleInfo:
         self.dropped = {'docstrings': 0, 'decorators': []}
         self._index(self.tree.body, '')
 
+    def _abs_module(self, node):
+        """dotted name of the module an ImportFrom refers to; relative imports (`from . import x`, `from ..a import b`) are
+        resolved against the package of this file"""
+        if not getattr(node, 'level', 0):
+            return node.module or ''
+        parts = self.relpath.split('/')
+        if parts and parts[0] == 'src':
+            parts = parts[1:]
+        parts = parts[:-1]                     # the package this file lives in (also for __init__.py)
+        up = node.level - 1
+        if up:
+            parts = parts[:-up] if up <= len(parts) else []
+        base = '.'.join(parts)
+        return (base + '.' + node.module) if node.module else base
+
     def _index(self, body, prefix):
         for node in body:
             if isinstance(node, (ast.FunctionDef, ast.AsyncFunctionDef)):
@@ -49,7 +64,7 @@ class ModuleInfo:
                     if a.name == '*':
                         self.star_imports.append(node.module or '')
                         continue
-                    self.imports[a.asname or a.name] = ('from', node.module or '', a.name)
+                    self.imports[a.asname or a.name] = ('from', self._abs_module(node), a.name)
             elif isinstance(node, (ast.If, ast.Try)) and not prefix:
                 # module-level conditional definitions (e.g. try: import c ext): index all branches
                 for sub in ast.iter_child_nodes(node):
